@@ -231,7 +231,13 @@ func (e *Engine) call(fn *ssa.Function, args []Value, env []Value) Value {
 			return h(e, fn, args)
 		}
 	}
-	if repl, ok := e.ld.Intercepts[name]; ok {
+	repl, ok := e.ld.Intercepts[name]
+	if !ok {
+		if o := fn.Origin(); o != nil && o != fn {
+			repl, ok = e.ld.Intercepts[o.String()]
+		}
+	}
+	if ok {
 		e.res.Stubs[name+" -> "+repl.String()]++
 		fn = repl
 		name = repl.String()
